@@ -292,6 +292,15 @@ pub(crate) fn run_scheduling_solver(
                         if !w.is_capable_to_run_rqv(blocker_rqv, now) {
                             continue;
                         }
+                        // A multi-node task keeps a worker free only if the group of the worker
+                        // has enough workers to run the task
+                        if blocker_rqv.is_multi_node()
+                            && !worker_groups
+                                .get(&w.configuration.group)
+                                .is_some_and(|g| g.is_capable_to_run(blocker_rqv, now, worker_map))
+                        {
+                            continue;
+                        }
                         let gap = scheduler_cache.gap_cache.get_gap(
                             *blocker_rq_id,
                             batch.resource_rq_id,
